@@ -871,3 +871,83 @@ Proof.
       { exists e0. split; [exact He0|]. split; [exact Hz0|]. rewrite <- Hk0 in Hc0, Ha0. cbn [fst snd] in Hc0, Ha0. split; assumption. }
       exists x. split; [apply Hsub; exact Hx|exact Hk].
 Qed.
+
+Lemma user_keys_equiv part posts days0 :
+  part_facts part -> Permutation (days_postings days0) posts -> days_dated days0 ->
+  forall ac,
+    (exists x, In x (days_postings (map (filt (span part)) days0)) /\ key_of x = ac) <->
+    (exists e, In e (user_entries (span part) (periods part) posts) /\ ekey e = ac).
+Proof.
+  intros [_ Htiles] Hperm Hdated ac.
+  assert (Hcol : forall d, in_span (span part) d = true -> column_for (periods part) d <> None).
+  { intros d Hs. unfold in_span in Hs. destruct (Htiles ltac:(lia)) as [Ht _]. apply (column_some _ _ _ d Ht). lia. }
+  rewrite (user_entries_keys _ _ posts ac Hcol). split; intros (x & Hx & Hk).
+  - apply (filt_in_iff _ _ _ Hdated) in Hx. destruct Hx as [A B]. exists x. split; [eapply Permutation_in; [exact Hperm|exact A]|]. tauto.
+  - destruct Hk as [Hk1 Hk2]. exists x. split; [|exact Hk2]. apply (filt_in_iff _ _ _ Hdated).
+    split; [eapply Permutation_in; [apply Permutation_sym; exact Hperm|exact Hx]|exact Hk1].
+Qed.
+
+Lemma rows_from_keys cfg part (r : report) L ES :
+  (forall x, In x (rows r) <-> In x (flat_map (q_rows (balance_query cfg part)) L)) ->
+  (forall ac, (exists x, In x L /\ key_of x = ac) <-> (exists e : entry, In e ES /\ ekey e = ac)) ->
+  forall row, In row (rows r) <->
+    (exists e, In e (mapped_entries cfg ES) /\ (let '(_, a, _, _) := e in In row (prefixes_from [] a))).
+Proof.
+  intros Hr Hk row. rewrite mapped_rows, Hr, in_flat_map. split.
+  - intros (x & Hx & Hin). rewrite q_rows_balance in Hin.
+    destruct (proj1 (Hk (key_of x)) (ex_intro _ x (conj Hx eq_refl))) as (e & He & Hek).
+    exists e. split; [exact He|]. rewrite Hek. exact Hin.
+  - intros (e & He & Hin).
+    destruct (proj2 (Hk (ekey e)) (ex_intro _ e (conj He eq_refl))) as (x & Hx & Hxk).
+    exists x. split; [exact Hx|]. rewrite q_rows_balance, Hxk. exact Hin.
+Qed.
+
+(* which rows the report has *)
+Theorem report_rows cfg ds r part :
+  bc_valuation cfg = None ->
+  balance_report cfg ds = COk (r, part) ->
+  exists dl,
+    parse_directives ds = MOk dl /\
+    ((bc_close cfg = true -> postings_syntactic dl) ->
+     forall row, In row (rows r) <-> ledger_row cfg dl row).
+Proof.
+  intros Hv H. unfold balance_report in H. rewrite Hv in H. cbn [cbind] in H.
+  unfold load in H. destruct (parse_directives ds) as [dl| |] eqn:Ep; try discriminate. cbn [cbind of_mresult] in H.
+  exists dl. split; [reflexivity|]. intros Hsyn.
+  unfold cfg_partition in H. rewrite builder_period_spec in H.
+  destruct (new_partition (clip (mkPeriod (bc_from cfg) (bc_to cfg)) (journal_period dl)) (bc_interval cfg) (bc_last cfg)) as [part0| |] eqn:Epart; try discriminate.
+  cbn [cbind] in H. unfold run_stage in H.
+  pose proof (partition_facts _ _ _ _ Epart) as Hpf.
+  unfold ledger_row. rewrite Epart.
+  destruct (bc_close cfg) eqn:Hc.
+  - specialize (Hsyn eq_refl).
+    destruct (process_days (check_proc_current (bc_lenient cfg)) check_init (b_days (builder_touch (builder_of dl) (start_dates part0)))) as [[s1 d1]| |] eqn:E1; try discriminate.
+    cbn [cbind of_presult fst snd] in H.
+    pose proof (check_current_stage_id _ _ _ _ _ E1) as ->.
+    destruct (process_days (filter_proc (span part0)) tt (b_days (builder_touch (builder_of dl) (start_dates part0)))) as [[s4 d4]| |] eqn:E4; try discriminate.
+    cbn [cbind of_presult fst snd] in H.
+    pose proof (filter_stage_spec _ _ _ _ _ E4) as ->.
+    destruct (process_days (close_proc (start_dates part0)) (mkClose [] []) _) as [[s5 d5]| |] eqn:E5; try discriminate.
+    cbn [cbind of_presult fst snd] in H.
+    destruct (process_days (query_proc (balance_query cfg part0) report_insert) new_report d5) as [[r6 d6]| |] eqn:E6; try discriminate.
+    cbn [cbind of_presult fst snd] in H. inversion H; subst r6 part0. clear H.
+    destruct (query_days_rows (balance_query cfg part) _ _ _ _ wf_new_report E6) as (_ & Hrows).
+    change (map (fun d => if period_contains (span part) (d_date d) then d else set_txns d []) (b_days (builder_touch (builder_of dl) (start_dates part))))
+      with (map (filt (span part)) (b_days (builder_touch (builder_of dl) (start_dates part)))) in E5.
+    apply (rows_from_keys cfg part r (days_postings d5)).
+    + intros x. rewrite Hrows. split; [intros [Hf|Hx]; [destruct (rows_new _ Hf)|exact Hx]|intros Hx; right; exact Hx].
+    + apply (close_keys_equiv part dl s5 d5 Hpf Hsyn (parse_directives_vz _ _ Ep) E5).
+  - destruct (process_days (check_proc_current (bc_lenient cfg)) check_init (b_days (builder_of dl))) as [[s1 d1]| |] eqn:E1; try discriminate.
+    cbn [cbind of_presult fst snd] in H.
+    pose proof (check_current_stage_id _ _ _ _ _ E1) as ->.
+    destruct (process_days (filter_proc (span part0)) tt (b_days (builder_of dl))) as [[s4 d4]| |] eqn:E4; try discriminate.
+    cbn [cbind of_presult fst snd] in H.
+    pose proof (filter_stage_spec _ _ _ _ _ E4) as ->.
+    destruct (process_days (query_proc (balance_query cfg part0) report_insert) new_report _) as [[r6 d6]| |] eqn:E6; try discriminate.
+    cbn [cbind of_presult fst snd] in H. inversion H; subst r6 part0. clear H.
+    destruct (query_days_rows (balance_query cfg part) _ _ _ _ wf_new_report E6) as (_ & Hrows).
+    rewrite app_nil_r.
+    apply (rows_from_keys cfg part r (days_postings (map (filt (span part)) (b_days (builder_of dl))))).
+    + intros x. rewrite Hrows. split; [intros [Hf|Hx]; [destruct (rows_new _ Hf)|exact Hx]|intros Hx; right; exact Hx].
+    + apply (user_keys_equiv part (flat_postings dl) (b_days (builder_of dl)) Hpf (builder_of_perm dl) (builder_of_dated dl)).
+Qed.
